@@ -9,11 +9,23 @@ Theorem C10_gate : forall r li e r' es',
   prop_gate r li 0 [e] = (r', es') ->
   (r_pending_conf_index r <= l_applied (r_log r) /\
    (0 <? nlen (c_outgoing (t_config (r_trk r)))) = e_leave e /\
+   cc_accepted r li e = true /\
    es' = [e] /\ r_pending_conf_index r' = li + 1)
   \/
   (es' = [mkEntry 0 0 EntryNormal true [] false false] /\ r' = r).
 Proof. exact prop_gate_single. Qed.
 Print Assumptions C10_gate.
+
+(* a change that the current configuration does not accept ([cc_accepted]: the payload decoded as
+   the code decodes it, then a dry run of the Changer) is replaced by an empty entry: it can never
+   reach ApplyConfChange, where it would make every node panic (the F6 repair) *)
+Theorem C10_unacceptable_change_refused : forall r li e r' es',
+  is_cc_type (e_type e) = true -> r_disable_cc_validation r = false ->
+  cc_accepted r li e = false ->
+  prop_gate r li 0 [e] = (r', es') ->
+  es' = [mkEntry 0 0 EntryNormal true [] false false] /\ r' = r.
+Proof. exact prop_gate_refuses_unacceptable. Qed.
+Print Assumptions C10_unacceptable_change_refused.
 
 Theorem C10_hup_refuses : forall st r t r',
   has_unapplied_conf_changes st r = Ok true -> hup st r t = Ok r' -> r' = r.
